@@ -10,6 +10,7 @@ five booleans wandb ckpt structured delete save_last, then `<n> b1 … bn` = per
 `fsr    <repaired|asis> <flags1> <rounds1> <flags2> <rounds2>` →  file system at every crash point of run 2,
                                                                   starting from what run 1 (`run1Flags flags1`) left
 `traces <ver> <flagsA> <roundsA> <flagsB> <roundsB>` / `fss …` →  run B started in run A's folder (same save_ckpt_path)
+`tracek` / `fsk <present|absent> <ver> <flags> <rounds>`         →  fresh run, key given / not given in the config
 `tracel` / `fsl <ver> <flags> <rounds>`                         →  fresh run with the low-memory fallback
 `tracea` / `fsa <ver> <flags> <rounds>`                         →  run aborted inside fit after `rounds`
 `tracex` / `fsx <k> <ver> <flagsA> <roundsA> <flagsB> <roundsB>` →  run B after run A died at its crash point k
@@ -100,6 +101,17 @@ def handle (line : String) : String :=
       showStates ((List.range ((traceS v (leftBest fA) (leftLast fA) fB rB).length + 1)).map
         fun n => fsSameAt v fA rA fB rB n)
     | none => "bad-op"
+  | "tracek" :: k :: rest =>   -- fresh run whose configuration carries a key (`present`) or none (`absent`)
+    match (if k = "present" then some KeyState.present else if k = "absent" then some KeyState.absent else none),
+          runP pCase rest with
+    | some k, some (v, f, r) => "ok " ++ " ".intercalate ((traceGK k v f r).map Event.str)
+    | _, _ => "bad-op"
+  | "fsk" :: k :: rest =>
+    match (if k = "present" then some KeyState.present else if k = "absent" then some KeyState.absent else none),
+          runP pCase rest with
+    | some k, some (v, f, r) =>
+      showStates ((List.range ((traceGK k v f r).length + 1)).map fun n => fsAt (traceGK k v f r) n)
+    | _, _ => "bad-op"
   | "tracel" :: rest =>      -- fresh run on a host where the in-memory cache does not fit (low-memory fallback)
     match runP pCase rest with
     | some (v, f, r) => "ok " ++ " ".intercalate ((traceLM v f r).map Event.str)
